@@ -153,7 +153,7 @@ impl Agent for MomentumAgent {
             Some(p) => {
                 let m =
                     self.momentum * (1.0 - self.params.decay) + self.params.decay * (mid_price - p);
-                let p = self.params.demand * f64::tanh(self.params.scale * m) / self.n;
+                let p = (self.params.demand * f64::tanh(self.params.scale * m)).abs() / self.n;
                 (m, p)
             }
             None => (0.0, 0.0),
@@ -339,7 +339,7 @@ impl MarketAgent for MomentumMarketAgent {
             Some(p) => {
                 let m =
                     self.momentum * (1.0 - self.params.decay) + self.params.decay * (mid_price - p);
-                let p = self.params.demand * f64::tanh(self.params.scale * m) / self.n;
+                let p = (self.params.demand * f64::tanh(self.params.scale * m)).abs() / self.n;
                 (m, p)
             }
             None => (0.0, 0.0),
